@@ -46,7 +46,7 @@ class Schedule(ObsSpec):
         self.oblige_inv(ex)
 
     def post_raise(self, ex, exc, site):
-        if exc.cls != "OSError":
+        if exc.cls != "OSError" and not (exc.cls == "RuntimeError" and site == "emitter.start()"):
             ex.oblige(f"no-uncaught[{exc.cls}@{site}]", False, kind="exception")
             return
         # a schedule() that raised has no effect at all
@@ -263,7 +263,7 @@ class Start(ObsSpec):
 
     def post_raise(self, ex, exc, site):
         W = self.W
-        if exc.cls != "OSError":
+        if exc.cls not in ("OSError", "RuntimeError") or site != "emitter.start()":
             ex.oblige(f"no-uncaught[{exc.cls}@{site}]", False, kind="exception")
             return
         now = W.view(ex, self.me)
@@ -309,6 +309,9 @@ class ObserverInit(ObsSpec):
             ex.oblige(f"post[invariant established:{nm}]", f)
         lk = ex.heap.get((self.me.id, "_lock"))
         ex.oblige("post[one re-entrant lock protects the registry]", isinstance(lk, VOpaque) and lk.kind == "lock")
+        hd = ex.heap.get((self.me.id, "_handlers"))
+        ex.oblige("post[the handler map answers an unknown watch with the empty set (an event of a watch that was unscheduled meanwhile finds no handler - it does not raise in the observer thread)]",
+                  isinstance(hd, VDict) and hd.default is not None)
 
 
 # ------------------------------------------------------------------------------------------------ ObservedWatch
@@ -422,7 +425,13 @@ def _z(t):
 def make_specs():
     W = ObsWorld()
     WW = WatchWorld()
-    return [ObserverInit(W), Schedule(W), Unschedule(W), UnscheduleAll(W), ClearEmitters(W), AddHandler(W), RemoveHandler(W), Start(W)] + [WatchSpec(WW, n) for n in ("__init__", "key", "__eq__", "__ne__", "__hash__")]
+    out = [ObserverInit(W), Schedule(W), Unschedule(W), UnscheduleAll(W), ClearEmitters(W), AddHandler(W), RemoveHandler(W), Start(W)] + [WatchSpec(WW, n) for n in ("__init__", "key", "__eq__", "__ne__", "__hash__")]
+    # "after any sequence of ... start and stop calls": stop() is BaseThread.stop -> on_thread_stop -> unschedule_all, on every call
+    from specs import c05, c06
+    for sp in (c06.ThreadStop(), c05.OnThreadStop(W)):
+        sp.prop = PROP
+        out.append(sp)
+    return out
 
 
 EXPECTED_CLAUSES = ["BaseObserver.__init__.post[invariant established:emitters=ran(E)]", "schedule.raises[handlers unchanged]", "schedule.raises[emitter map unchanged]", "schedule.post[handler added to this watch]", "schedule.post[invariant:emitters=ran(E)]",
